@@ -219,6 +219,7 @@ def run(ctx):
     ctx.ob('C11.D3', gx.qualname, 'returns-interface-list', okr,
            'getInterfacesFromXML must return the handler\'s interface list')
     composition(ctx)
+    explicit_interfaces_as_given(ctx)
     from .c09 import per_instance_registries
     per_instance_registries(
         ctx, 'C11.D3', ('introspection', 'interface', 'objects'),
@@ -286,6 +287,43 @@ COMPOSE = {
     'c10': ('C10.D1', 'C10.D2', 'C10.D3', 'C10.D6', 'C10.D7'),
     'c14': ('C14.D3', 'C14.D4'),
 }
+
+
+def explicit_interfaces_as_given(ctx):
+    """A proxy built from an explicitly supplied DBusInterface INSTANCE
+    must use that instance: its declarations are what the caller checked
+    its calls against.  Looking the name up in the process-wide cache
+    instead hands the proxy whatever definition was registered last under
+    that name."""
+    prog = ctx.prog
+    fi = prog.func('objects.DBusObjectHandler.getRemoteObject')
+    n = 0
+    seen = set()
+    for p in Interp(prog, exc_edges=False).run(fi):
+        for ev in p.trace:
+            if ev[0] != 'loop' or ev[1] in seen:
+                continue
+            seen.add(ev[1])
+            for bp in ev[4]:
+                inst = [c[3][0] for c, pol in bp.cond
+                        if kind(c) == 'call' and c[1] == 'isinstance' and pol
+                        and len(c[3]) == 2 and
+                        c[3][1] == ('class', 'interface.DBusInterface')]
+                if not inst:
+                    continue
+                elem = inst[0]
+                apps = [e for e in bp.trace if e[0] == 'mutate' and
+                        e[2] == 'append']
+                n += 1
+                ok = len(apps) == 1 and apps[0][3] == (elem,)
+                ctx.ob('C11.D3', fi.qualname, 'explicit-instance-as-given',
+                       ok, 'an interface passed as a DBusInterface instance '
+                       'must be handed to the proxy as it is; this path '
+                       'appends %s' % ([term_str(a[3][0])[:60] for a in apps]
+                                       or 'nothing'))
+    if n == 0:
+        ctx.ob('C11.D3', fi.qualname, 'explicit-instance-as-given', False,
+               'getRemoteObject no longer distinguishes interface instances')
 
 
 class _Compose:
